@@ -839,3 +839,33 @@ Example ex_register_union :
   reg_ops_at (serial_run f12_env ex7_reg_store [ex7_reg_delivery [ex7_op 4 3 true]]) (reg_key 1 1)
     = [ex7_op 1 1 true].
 Proof. vm_compute. repeat split. Qed.
+
+(* ------------------------------------------------------------------ the put -> ack window (serial, F12 family) *)
+
+(* Two replicated copies of one register delivered one after the other -- the second starts after the
+   first has fully returned and its PutLocalRecord has been processed -- but before the first disk write is
+   acknowledged: the key is readable (write cache) yet not indexed, validate_and_store_register takes the
+   second copy for a first store and writes it as it is; the first copy's operation is lost.  With the
+   acknowledgement relayed in between (the premise [all_listed] of the serial theorems) both are kept. *)
+Definition win_reg (ops : list regop) : reg :=
+  {| g_base := {| r_owner := 1; r_meta := 1; r_perm := PermWriters []; r_osig := OSBy 1 |}; g_ops := ops |}.
+Definition win_op (i : N) : regop :=
+  {| op_id := i; op_writer := 1; op_sigok := true; op_addr := None; op_size := 16 |}.
+Definition win_delivery (i : N) : delivery :=
+  {| d_path := PRepl;
+     d_up := {| u_key := reg_key 1 1; u_hdr := kind_of_tag 3; u_proof := None; u_body := BReg (win_reg [win_op i]);
+                u_chain := ChainErr |} |}.
+Definition win_block (i : nat) : list token := repeat (TAdv i) 8.
+
+Lemma register_overwritten_before_ack_refuted_lemma :
+  reg_ops_at (fst (sched_run f12_env [] [win_delivery 2; win_delivery 3] (win_block 0 ++ win_block 1))) (reg_key 1 1)
+    = [win_op 3] /\
+  reg_ops_at (fst (sched_run f12_env [] [win_delivery 2; win_delivery 3] (win_block 0 ++ [TAck] ++ win_block 1))) (reg_key 1 1)
+    = [win_op 2; win_op 3] /\
+  reg_ops_at (serial_run f12_env [] [win_delivery 2; win_delivery 3]) (reg_key 1 1) = [win_op 2; win_op 3] /\
+  (* the delivery was already over when the next one started *)
+  (let '(st, ds) := fold_left sched_step (win_block 0) ([], map (dinit f12_env) [win_delivery 2; win_delivery 3]) in
+   match ds with d0 :: _ => ds_phase d0 = DDone /\ ds_outbox d0 = [] /\ get st (reg_key 1 1) = Some (SReg (win_reg [win_op 2]))
+                            /\ listed st (reg_key 1 1) = false
+            | [] => False end).
+Proof. vm_compute. repeat split. Qed.
